@@ -242,13 +242,17 @@ def _big_case(args):
     M[nr - 1, nc - 1] = 40000.0
     # 'near': the non-integral values are within 1e-6 of an integer (17.00000005): they are not integers
     dl = 5e-8 if where == 'near' else 0.25
-    region = 'start' if where == 'near' else where
+    region = 'start' if where == 'near' else 'none' if where == 'f32edge' else where
     flat_rows = {'start': range(0, 3), 'middle': range(44, 47), 'end': range(nr - 3, nr), 'none': range(0)}[region]
+    if where == 'f32edge':
+        # stored in single precision (what scanpy writes): huge odd counts, whose neighbours are 1 apart, the largest
+        # single-precision value below one half, and one value that makes rounding necessary
+        M[0, 0], M[1, 1], M[2, 2], M[3, 3], M[4, 4] = 8388609.0, 16777215.0, float(np.float32(0.49999997)), 12.25, 8388611.0
     for r in flat_rows:
         for c in range(nc):
             if M[r, c] != 0 and enc != 'csc' or enc == 'dense':
                 M[r, c] += dl if (r + c) % 2 or where == 'near' else -dl
-    if enc == 'csc' and where != 'none':
+    if enc == 'csc' and region != 'none':
         cols = {'start': range(0, 3), 'middle': range(29, 32), 'end': range(nc - 3, nc)}[region]
         for c in cols:
             for r in range(nr):
@@ -260,7 +264,10 @@ def _big_case(args):
         names = [f'ENSMUSG{j + 1:011d}' for j in range(nc)]
         obs = pd.DataFrame(index=pd.Index([f'c{i}' for i in range(nr)], name='cell_id'))
         var = pd.DataFrame(index=pd.Index(names, name='gene'))
+        if where == 'f32edge':
+            M = M.astype(np.float32)
         X = sp.csr_matrix(M) if enc == 'csr' else sp.csc_matrix(M) if enc == 'csc' else M
+        M = M.astype(np.float64)
         src = os.path.join(d, 'in.h5ad')
         with warnings.catch_warnings():
             warnings.simplefilter('ignore')
@@ -358,7 +365,7 @@ def run(ctx):
     # matrices stored in several HDF5 chunks
     big = [(enc, where, place, chunk, wd, ctx.seed + k)
            for k, (enc, where, place, chunk) in enumerate(
-               (e, w, pl, c) for e in ('dense', 'csr', 'csc') for w in ('start', 'middle', 'end', 'none', 'near')
+               (e, w, pl, c) for e in ('dense', 'csr', 'csc') for w in ('start', 'middle', 'end', 'none', 'near', 'f32edge')
                for pl in ('X', 'layer') for c in ((256, 1000) if not quick else (256,)))]
     with cf.ProcessPoolExecutor(max_workers=12) as ex:
         bouts = list(ex.map(_big_case, big, chunksize=2))
